@@ -303,6 +303,7 @@ func c18(c *core.Check) {
 	}
 
 	// ---- R2 reference cycles (same decisions as C01.R3 for the SVG instances)
+	c18SubpathStart(c, r1)
 	r2 := c.Rule("R2", "references cannot be followed forever: <use> resolution (by id and by URL) and href inheritance between definitions are cycle-guarded at parse time, and while drawing, the content of a marker, clip path or mask is drawn only after the definition was recorded as being drawn (a reference to a definition in progress is skipped)", 6)
 	if ru := p.Lookup("svg.(*svgContext).resolveUse"); ru == nil {
 		r2.Anchor("svg.(*svgContext).resolveUse")
@@ -678,5 +679,48 @@ func c18Attributes(c *core.Check) {
 	}
 	if n == 0 {
 		r.Anchor("svg shape constructors: fields parsed with parseValue from node.attrs")
+	}
+}
+
+// c18SubpathStart: closepath returns to the point given by the moveto's first pair.
+func c18SubpathStart(c *core.Check, r *core.Rule) {
+	p := c.Prog
+	fn := p.Lookup("svg.(*pathParser).addSeg")
+	if fn == nil {
+		return
+	}
+	n := 0
+	core.Instrs(fn, func(in ssa.Instruction) {
+		st, ok := in.(*ssa.Store)
+		if !ok {
+			return
+		}
+		fa, ok := st.Addr.(*ssa.FieldAddr)
+		if !ok {
+			return
+		}
+		name := core.FieldName(fa)
+		want := int64(-1)
+		switch name {
+		case "pathStartX":
+			want = 0
+		case "pathStartY":
+			want = 1
+		default:
+			return
+		}
+		n++
+		got := int64(-2)
+		if ld, ok := st.Val.(*ssa.UnOp); ok {
+			if ia, ok := ld.X.(*ssa.IndexAddr); ok && core.IsFieldNamed(ia.X, "points") {
+				if k, isK := core.ConstInt(ia.Index); isK {
+					got = k
+				}
+			}
+		}
+		r.Cond(got == want, "addSeg | M records "+name+" from its first pair", p.Pos(st.Pos()), fmt.Sprintf("c.points[%d]", want), "the start of the sub-path is not the moveto's own pair (extra pairs of a moveto are implicit linetos): closepath returns to the wrong point")
+	})
+	if n == 0 {
+		r.Anchor("addSeg: stores to pathStartX / pathStartY")
 	}
 }
